@@ -37,7 +37,8 @@ fn valid_dest<const L: usize>(code: &[u8; L], t: usize) -> bool {
     false
 }
 
-fn check<const L: usize>(code: [u8; L]) {
+/// `witness`: a position that is a valid destination for some contents of this harness (vacuity guard), or usize::MAX
+fn check<const L: usize>(code: [u8; L], witness: usize) {
     let analysed = to_analysed(Bytecode::new_legacy(Bytes::copy_from_slice(&code)));
     let a = match &analysed {
         Bytecode::LegacyAnalyzed(a) => a,
@@ -46,8 +47,8 @@ fn check<const L: usize>(code: [u8; L]) {
             return;
         }
     };
-    // vacuity guard: some code of this length has a JUMPDEST accepted (L >= 1) / the run got here (L = 0)
-    kani::cover!(L == 0 || a.jump_table().is_valid(L - 1));
+    // vacuity guard: the run gets here, and the witness position is accepted for some contents
+    kani::cover!(witness == usize::MAX || a.jump_table().is_valid(witness));
     assert!(a.original_len() == L);
     let bytes: &[u8] = a.bytecode().as_ref();
     assert!(bytes.len() == L + 33);
@@ -73,33 +74,77 @@ fn check<const L: usize>(code: [u8; L]) {
     assert!(!a.jump_table().is_valid(far));
 }
 
+// ---- family 1: ALL byte strings of a concrete length (symbolic opcodes => symbolic walk) ------------------------
+// Only L = 0 is affordable in the quick tier, L = 1 in the thorough tier; L = 2 exhausted 12 GB after 5.6 min
+// (measured 2026-09-21): every loop iteration of analyze then executes bitvec's `set_unchecked` symbolically,
+// and bitvec decodes its span pointer through pointer<->integer casts, which CBMC resolves over every object.
 #[kani::proof]
-#[kani::unwind(42)]
+#[kani::unwind(36)]
 fn table_len0() {
-    check::<0>(kani::any());
+    check::<0>(kani::any(), usize::MAX);
 }
 #[kani::proof]
-#[kani::unwind(42)]
+#[kani::unwind(37)]
 fn table_len1() {
-    check::<1>(kani::any());
+    check::<1>(kani::any(), 0);
 }
+
+// ---- family 2: concrete OPCODE positions, ALL immediate-data bytes symbolic ------------------------------------
+// The walk of analyze is concrete, every push-data byte is symbolic (in particular 0x5b, 0x60..0x7f hidden in
+// push data), the oracle is the same independent walk.  Shapes: PUSH1/PUSH2/PUSH32 with complete data followed
+// by a JUMPDEST, and PUSH1/PUSH2/PUSH31/PUSH32 truncated by the end of the code (data runs into the padding).
+const JD: u8 = 0x5b;
+
+/// PUSH1 d JUMPDEST
 #[kani::proof]
-#[kani::unwind(42)]
-fn table_len2() {
-    check::<2>(kani::any());
+#[kani::unwind(39)]
+fn shape_push1_data() {
+    let d: u8 = kani::any();
+    check::<3>([0x60, d, JD], 2);
 }
+/// JUMPDEST PUSH2 d d JUMPDEST
 #[kani::proof]
-#[kani::unwind(42)]
-fn table_len3() {
-    check::<3>(kani::any());
+#[kani::unwind(41)]
+fn shape_push2_data() {
+    let d: [u8; 2] = kani::any();
+    check::<5>([JD, 0x61, d[0], d[1], JD], 4);
 }
+/// PUSH32 d*32 JUMPDEST JUMPDEST
 #[kani::proof]
-#[kani::unwind(42)]
-fn table_len4() {
-    check::<4>(kani::any());
+#[kani::unwind(71)]
+fn shape_push32_data() {
+    let d: [u8; 32] = kani::any();
+    let mut code = [JD; 35];
+    code[0] = 0x7f;
+    let mut i = 0;
+    while i < 32 {
+        code[1 + i] = d[i];
+        i += 1;
+    }
+    check::<35>(code, 34);
 }
+/// JUMPDEST PUSH32 -- truncated: all 32 data bytes are padding, the walk ends exactly at the end of the buffer
 #[kani::proof]
-#[kani::unwind(42)]
-fn table_len5() {
-    check::<5>(kani::any());
+#[kani::unwind(38)]
+fn shape_trunc_push32() {
+    check::<2>([JD, 0x7f], 0);
+}
+/// JUMPDEST PUSH31 -- truncated, one padding byte left
+#[kani::proof]
+#[kani::unwind(38)]
+fn shape_trunc_push31() {
+    check::<2>([JD, 0x7e], 0);
+}
+/// JUMPDEST PUSH1 -- truncated
+#[kani::proof]
+#[kani::unwind(38)]
+fn shape_trunc_push1() {
+    check::<2>([JD, 0x60], 0);
+}
+/// PUSH2 d -- truncated in the middle of its data
+#[kani::proof]
+#[kani::unwind(38)]
+fn shape_trunc_push2_mid() {
+    let d: u8 = kani::any();
+    check::<2>([0x61, d], usize::MAX);
 }
